@@ -29,7 +29,10 @@ def prim():
     lay = st.fixed_dictionaries({"k": st.sampled_from(["layered", "layered_t"]), "fr": st.lists(st.floats(0.05, 1.0), min_size=2, max_size=4),
                                  "r": _r, "c": st.tuples(_c, _c, _c).map(list)})
     ell = st.fixed_dictionaries({"k": st.just("ellipsoid"), "r3": st.tuples(_r, _r, _r).map(list), "c": st.tuples(_c, _c, _c).map(list)})
-    return st.one_of(sph, lay, ell)
+    # the multi-radius Sphere also accepts radii that are not increasing: its region is the ball of the largest radius
+    uns = st.fixed_dictionaries({"k": st.just("layered_unsorted"), "fr": st.lists(st.floats(0.05, 1.0), min_size=2, max_size=4),
+                                 "r": _r, "c": st.tuples(_c, _c, _c).map(list), "rot": st.integers(0, 3)})
+    return st.one_of(sph, lay, ell, lay, uns)
 
 
 def simple_prim():
@@ -53,6 +56,12 @@ def radii_of(d):
     return rr
 
 
+def unsorted_radii(d):
+    rr = radii_of(d)
+    k = d["rot"] % len(rr)
+    return rr[::-1] if k == 0 else rr[k:] + rr[:k]
+
+
 def build(d, n=1.5):
     from holopy.scattering import Sphere, LayeredSphere, Ellipsoid
     from holopy.scattering.scatterer import Union, Difference, Intersection
@@ -66,6 +75,9 @@ def build(d, n=1.5):
             return Sphere(n=ns, r=rr, center=tuple(d["c"]))
         t = [rr[0]] + [b - a for a, b in zip(rr[:-1], rr[1:])]
         return LayeredSphere(n=ns, t=t, center=tuple(d["c"]))
+    if k == "layered_unsorted":
+        rr = unsorted_radii(d)
+        return Sphere(n=[n + 0.1 * i for i in range(len(rr))], r=rr, center=tuple(d["c"]))
     if k == "ellipsoid":
         return Ellipsoid(n=n, r=tuple(d["r3"]), center=tuple(d["c"]))
     cls = {"union": Union, "difference": Difference, "intersection": Intersection}[k]
@@ -76,7 +88,7 @@ def ref_domain(d, p, obj=None):
     """(domain index or bool, decided?) by exact rational arithmetic."""
     k = d["k"]
     P = [Fraction(float(v)) for v in p]
-    if k in ("sphere", "layered", "layered_t", "ellipsoid"):
+    if k in ("sphere", "layered", "layered_t", "layered_unsorted", "ellipsoid"):
         C = [Fraction(float(v)) for v in d["c"]]
         if k == "ellipsoid":
             lhs = sum(((a - b) / Fraction(float(r))) ** 2 for a, b, r in zip(P, C, d["r3"]))
@@ -95,6 +107,9 @@ def ref_domain(d, p, obj=None):
                 decided = False
             if d2 < r2 and dom == 0:
                 dom = i + 1
+        if k == "layered_unsorted":
+            # which layer a point of an unsorted radius list belongs to is not specified; inside/outside is
+            return (1 if dom else 0), decided
         return dom, decided
     a, da = ref_domain(d["a"], p)
     b, db = ref_domain(d["b"], p)
@@ -110,7 +125,7 @@ def bbox(d):
     k = d["k"]
     if k == "sphere":
         return [(c - d["r"], c + d["r"]) for c in d["c"]]
-    if k in ("layered", "layered_t"):
+    if k in ("layered", "layered_t", "layered_unsorted"):
         return [(c - d["r"], c + d["r"]) for c in d["c"]]
     if k == "ellipsoid":
         return [(c - r, c + r) for c, r in zip(d["c"], d["r3"])]
@@ -172,7 +187,7 @@ def run_contain(case):
             continue
         ndec += 1
         got = dom[i]
-        if d["k"] in ("union", "difference", "intersection", "sphere", "ellipsoid"):
+        if d["k"] in ("union", "difference", "intersection", "sphere", "ellipsoid", "layered_unsorted"):
             if bool(got) != bool(want) or bool(con[i]) != bool(want):
                 return Outcome(failure("containment", "%s: point %r reported %s, analytic inequality says %s" % (d["k"], p.tolist(), bool(got), bool(want)),
                                        kind=d["k"]), True, labels)
@@ -182,7 +197,7 @@ def run_contain(case):
             if bool(con[i]) != bool(want):
                 return Outcome(failure("containment", "%s: contains() disagrees with the layer index" % d["k"], kind=d["k"]), True, labels)
     # index_at: that layer's refractive index, background elsewhere
-    if d["k"] not in ("union", "difference", "intersection"):
+    if d["k"] not in ("union", "difference", "intersection", "layered_unsorted"):
         bg = case["bg"]
         idx = s.index_at(pts, background=bg)
         ns = np.atleast_1d(s.n)
@@ -376,7 +391,7 @@ SUBCHECKS = [
         "Sphere, layered Sphere/LayeredSphere (2-4 layers), Ellipsoid (unrotated), Union/Difference/Intersection of two "
         "primitives; radii 1e-3..1e2; 2-10 cloud points in 1.5x the bounding box + 2-8 points at r(1 +- 10^-k), k=3..12, "
         "along random directions of every primitive/layer; in_domain/contains/index_at vs exact-rational inequality "
-        "(abstains within 64 ulp); translated(v).contains(p+v); bounds contain interior points; non-trivial = decided "
+        "(abstains within 64 ulp); translated(v).contains(p+v); bounds contain interior points; multi-radius Spheres also with radii in non-increasing order (containment and bounds only: the ball of the largest radius); non-trivial = decided "
         "points within 1e-6 r on both sides of a surface",
         tolerances={"abstain_rel_margin": "64 ulp"}),
     Sub("voxel_volume", strat_vox, run_vox, 1200, 12000,
